@@ -80,7 +80,7 @@ def server_mapping_stage(run, tier, replay):
     run.add_tlc(v)
     for (line, fl) in v.fails:
         for cl in fl["clauses"]:
-            if cl not in ("status_present", "status_absent", "body", "dropped_connection"):
+            if cl not in ("status_present", "status_absent", "body"):
                 continue
             q = fl["q"]
             rec = {"clause": "server_" + cl, "flip": q["flags"]["flip"], "swap": q["flags"]["swap"], "hasgeo": 0,
